@@ -191,6 +191,7 @@ class Ctx:
                 what = fail or ("unlisted-deviation:" + ",".join(sorted(known - set(self.known))))
                 rp = REPLAYS / f"{self.pid}-{len(self.violations) + 1}.json"
                 rp.write_text(json.dumps({"property": self.pid, "verdict": what, "event": n, "driver": driver, "opts": opts,
+                                          "sparse": sparse,
                                           "case": (cases_by_id or {}).get(i), "history": hist[i],
                                           "expected": ex.get(i, ""), "eps": eps, "module": module}, indent=1))
                 self.violations.append((what, str(rp)))
